@@ -391,8 +391,14 @@ def leg_in_child(op, many=None):
 def leg_fresh(op):
     """the leg in a brand-new interpreter"""
     import subprocess
+    env = None
+    if op.get("hashseed") is not None:
+        # two runs of one configuration under different string-hash seeds (set / dict-of-str iteration orders differ),
+        # in different working directories and processes, must write the same bytes
+        env = dict(os.environ)
+        env["PYTHONHASHSEED"] = str(op["hashseed"])
     p = subprocess.run([sys.executable, os.path.abspath(__file__), "--one", json.dumps(op)],
-                       stdout=subprocess.PIPE, stderr=subprocess.PIPE, text=True)
+                       stdout=subprocess.PIPE, stderr=subprocess.PIPE, text=True, env=env)
     try:
         return json.loads(p.stdout.strip().splitlines()[-1])
     except (ValueError, IndexError):
